@@ -144,7 +144,7 @@ func genScenario(t *rapid.T, s *rt.Spec, d domain) *rt.Scenario {
 			} else if prob(t, "panic", d.panics) {
 				o.K, o.PV = rt.OPanic, uniform(t, "pv", 9)
 			} else {
-				o.K, o.EV = rt.OErr, []int{0, 0, 0, 0, 1, 2, 3, 3, 4}[uniform(t, "ev", 9)]
+				o.K, o.EV = rt.OErr, []int{0, 0, 0, 0, 1, 2, 3, 3, 4, 5}[uniform(t, "ev", 10)]
 			}
 		}
 	}
